@@ -34,11 +34,13 @@ class LEWorld(NetWorld):
 
     FROZEN_CLOCK = False
 
-    def __init__(self, strategy="bully", n=3, views="full", max_timers=6, max_moves=14, rand="asc"):
+    def __init__(self, strategy="bully", n=3, views="full", max_timers=6, max_moves=14, rand="asc",
+                 heartbeat_s=0.5, establish=False):
         super().__init__()
-        self.p = dict(strategy=strategy, n=n, views=views, max_timers=max_timers, max_moves=max_moves, rand=rand)
+        self.p = dict(strategy=strategy, n=n, views=views, max_timers=max_timers, max_moves=max_moves, rand=rand,
+                      heartbeat_s=heartbeat_s, establish=establish)
         nodes = [LeaderElection(NAMES[i], self.net, strategy=STRATS[strategy](), election_timeout=2.0,
-                                heartbeat_interval=0.5) for i in range(n)]
+                                heartbeat_interval=heartbeat_s) for i in range(n)]
         self.add_nodes(nodes)
         late = views[5:] if views.startswith("late-") else None
         self.late = late
@@ -55,6 +57,26 @@ class LEWorld(NetWorld):
         self.rand_calls = 0
         for nd in nodes:
             self.absorb(nd.start())
+        if establish:
+            # non-initial start: a first election round runs to completion without interference (timers in time
+            # order, every message delivered at once, FIFO) until every node names the same leader; the search
+            # then explores what happens AFTER an established leadership (second rounds, spurious timeouts)
+            mm, mt = self.p["max_moves"], self.p["max_timers"]
+            self.p["max_moves"], self.p["max_timers"] = 10 ** 6, 10 ** 6
+            for _ in range(80):
+                leaders = {nd.current_leader for nd in self.nodes}
+                if not self.msgs and len(leaders) == 1 and None not in leaders:
+                    break
+                labs = self.enabled()
+                pick = next((lab for lab in labs if lab[0] == "deliver"), None) or \
+                    next((lab for lab in labs if lab[0] == "timer"), None)
+                if pick is None:
+                    break
+                self.apply(pick)
+            self.p["max_moves"], self.p["max_timers"] = mm, mt
+            self.moves = 0
+            self.counts["timer"] = 0
+            self.viol = []
 
     def randint(self, a, b):
         # owned RNG: the k-th draw of the run gets a value fixed by the 'rand' parameter
